@@ -81,6 +81,11 @@ def _resolve_direct(repo: Repo, mod: ModuleInfo, key: str, family: str, v: ast.e
 def load_family(repo: Repo, family: str) -> List[Entry]:
     mod = repo.module(f"trace_handlers.{family}")
     node = mod.constants.get("handlers")
+    if node is None and "handlers" in mod.imports:
+        # the family is a package: its registry is defined in one of its modules and re-exported
+        found = repo.lookup(f"{mod.name}.handlers")
+        if found and found[0] == "const":
+            mod, node = found[1], found[2]
     if node is None or not isinstance(node, ast.Dict):
         raise AnalysisError(f"anchor vanished: {mod.name}.handlers is not a dict literal")
     out = []
@@ -88,6 +93,84 @@ def load_family(repo: Repo, family: str) -> List[Entry]:
         if not (isinstance(k, ast.Constant) and isinstance(k.value, str)):
             raise AnalysisError(f"{mod.name}.handlers: non-constant key {ast.unparse(k) if k else '**'}")
         out.append(_resolve_value(repo, mod, k.value, family, v, k.lineno))
+    out.extend(_decorator_registrations(repo, mod, family))
+    return out
+
+
+def _term_to_ast(repo: Repo, mod: ModuleInfo, t: "sym.T") -> ast.expr:
+    """A bound argument computed by the registration code, written as an expression of the registry's module."""
+    if t.op == "const":
+        return ast.Constant(t.a[0])
+    if t.op in ("class", "func"):
+        short = t.a[0].rsplit(".", 1)[1]
+        if repo.dotted(mod, ast.Name(id=short, ctx=ast.Load())) == t.a[0] or \
+                (repo.lookup(f"{mod.name}.{short}") or (None, None, None))[2] is (repo.lookup(t.a[0]) or (None, None, None))[2]:
+            return ast.Name(id=short, ctx=ast.Load())
+    if t.op == "enum":
+        return ast.Attribute(value=_term_to_ast(repo, mod, sym.T("class", (t.a[0],))), attr=t.a[1], ctx=ast.Load())
+    if t.op in ("tuple", "list") and not any(x.op == "star" for x in t.a[0]):
+        elts = [_term_to_ast(repo, mod, x) for x in t.a[0]]
+        return ast.Tuple(elts=elts, ctx=ast.Load()) if t.op == "tuple" else ast.List(elts=elts, ctx=ast.Load())
+    raise AnalysisError(f"{mod.name}: a value bound at registration cannot be written as an expression: {sym.pretty(t)[:80]}")
+
+
+def _decorator_registrations(repo: Repo, mod: ModuleInfo, family: str) -> List[Entry]:
+    """Entries added by registration decorators (`@register('NAME', no_cancel=True)` over a handler): each decorated
+    module-level function defined after `handlers = ...` is passed through its decorators by the symbolic interpreter,
+    and the item stores into the module's `handlers` that this performs are the registrations - whatever the decorator
+    is called and however it computes the key and the value."""
+    start = mod.const_lines.get("handlers", 0)
+    decorated = [(f.lineno, name, f) for name, f in mod.functions.items() if f.decorator_list and f.lineno > start]
+    if not decorated:
+        return []
+    interp = sym.Interp(repo)
+    REG = sym.T("global", (f"{mod.name}.handlers",))
+    out: List[Entry] = []
+    for lineno, name, fnode in sorted(decorated):
+        if all(isinstance(d, ast.Name) and d.id in ("staticmethod", "classmethod", "dataclass") for d in fnode.decorator_list):
+            continue
+        rec = sym.Record()
+        fr = sym._Frame(interp, mod, fnode, None, rec, f"{mod.name}.<module>", 0, ())
+        st = sym.State({}, {}, ())
+        me = sym.T("func", (f"{mod.name}.{name}",))
+        val = me
+        at = {}
+        for deco in reversed(fnode.decorator_list):
+            n0 = len(rec.effects)
+            val = fr.call(fr.eval(deco, st), (val,), (), st, deco)
+            for e in rec.effects[n0:]:
+                at[id(e)] = deco
+        for e in rec.effects:
+            pth = e.path if e.path is not None else e.base
+            if not (e.kind == "sub-store" and pth == REG) or any(x.op == "bound" for x in sym.walk(e.value)):
+                continue            # (the second condition drops the decorator body seen with its parameter still symbolic)
+            if e.pc or not (isinstance(e.key, sym.T) and e.key.op == "const" and isinstance(e.key.a[0], str)):
+                raise AnalysisError(f"{mod.name}: registration of {name} at line {e.lineno} is conditional or has a computed key")
+            key, v = e.key.a[0], e.value
+            deco = at.get(id(e), fnode.decorator_list[0])
+            text = f"@{ast.unparse(deco)[:60]} def {name}"
+            pos, kw, target = (), (), v
+            if v.op == "call" and v.a[0] == sym.T("global", ("functools.partial",)) and v.a[1]:
+                target = v.a[1][0]
+                pos = tuple(_term_to_ast(repo, mod, x) for x in v.a[1][1:])
+                kws = []
+                for k_, x in v.a[2]:
+                    if k_ == "**":
+                        if x.op != "dict" or not all(kk.op == "const" and isinstance(kk.a[0], str) for kk, _ in x.a[0]):
+                            raise AnalysisError(f"{mod.name}: registration of {name}: keyword arguments are not literal")
+                        kws.extend((kk.a[0], _term_to_ast(repo, mod, vv)) for kk, vv in x.a[0])
+                    else:
+                        kws.append((k_, _term_to_ast(repo, mod, x)))
+                kw = tuple(kws)
+            found = repo.lookup(target.a[0]) if target.op == "func" else None
+            if not found or found[0] != "func":
+                raise AnalysisError(f"{mod.name}: {key!r} is registered to something that is not a module-level function: "
+                                    f"{sym.pretty(v)[:80]}")
+            for n_ in list(pos) + [x for _, x in kw]:
+                for sub in ast.walk(n_):
+                    sub.lineno = sub.end_lineno = deco.lineno
+                    sub.col_offset = sub.end_col_offset = 0
+            out.append(Entry(key, family, found[1], found[2].name, found[2], pos, kw, deco.lineno, text))
     return out
 
 
